@@ -255,6 +255,7 @@ pub mod verif_hooks {
     use super::{Framer, State};
 
     pub const PREFIX_SEARCH_LEN: u32 = Framer::PREFIX_SEARCH_LEN;
+    pub const MAX_BURST_LENGTH: usize = Framer::MAX_BURST_LENGTH;
 
     pub fn message_prefix_errors(inp: u32) -> u32 {
         super::message_prefix_errors(inp)
